@@ -47,6 +47,8 @@ FLAGS = ("false", "true", "error")
 # ------------------------------------------------------------------ abstract terms
 # ('v', name) ('i', n) ('ri', n, exprtext) ('q', num, den) ('f', float) ('a', name)
 # ('s', functor, [args]) ('str', "chars", tail|None) ('lst', [elems], tail|None) ('sh', k)
+# ('sd', head, tail): the list cell head.tail written `(H '.' T)` under op(200,xfy,'.'), for which the
+#   reader builds a '.'/2 STRUCTURE cell instead of a list cell (same term, other representation)
 
 
 def fbits(x):
@@ -116,6 +118,8 @@ class Render:
             if t[2] is None:
                 return "[%s]" % inner
             return "[%s|%s]" % (inner, self.pl(t[2]))
+        if k == 'sd':
+            return "(%s '.' %s)" % (self.pl(t[1]), self.pl(t[2]))
         if k == 'sh':
             if t[1] not in self.done_shares:
                 v = "S%d" % t[1]
@@ -149,6 +153,8 @@ def expand(t, shares):
         for e in reversed(t[1]):
             tl = cons(expand(e, shares), tl)
         return tl
+    if k == 'sd':
+        return cons(expand(t[1], shares), expand(t[2], shares))
     if k == 'sh':
         return expand(shares[t[1]], shares)
     raise ValueError(t)
@@ -806,6 +812,8 @@ def static_end(t, shares):
             return nil()
         if t[0] in ('str', 'lst'):
             t = t[2]
+        elif t[0] == 'sd':
+            t = t[2]
         elif t[0] == 'sh':
             t = shares[t[1]]
         elif t[0] == 's' and t[1] == '.' and len(t[2]) == 2:
@@ -854,6 +862,8 @@ def sanitize(t, shares):
     """inputs never contain a char list ending in a non-[] atom (see has_char_atom_tail):
     such an end is replaced by the integer 0."""
     k = t[0]
+    if k == 'sd':
+        return ('sd', sanitize(t[1], shares), sanitize(t[2], shares))
     if k == 's':
         a = [sanitize(x, shares) for x in t[2]]
         if t[1] == '.' and len(a) == 2 and is_char(a[0]) and a[1][0] == 'a' and a[1][1] != '[]':
@@ -877,6 +887,60 @@ def sanitize(t, shares):
             return tl
         return (k, el, tl)
     return t
+
+
+def contains_sd(t):
+    if t[0] == 'sd':
+        return True
+    if t[0] == 's':
+        return any(contains_sd(a) for a in t[2])
+    if t[0] == 'lst':
+        return any(contains_sd(e) for e in t[1]) or (t[2] is not None and contains_sd(t[2]))
+    if t[0] == 'str':
+        return t[2] is not None and contains_sd(t[2])
+    return False
+
+
+def strdot_meets(a, b):
+    """which run-time representations of a list does a '.'/2 STRUCTURE cell (node 'sd') of one
+    term meet at the same position of the other term: "lis" (list cell), "pstr" (partial string: the
+    reader packs runs of one-char atoms), "strdot".  Syntactic walk (variables are not followed)."""
+    out = set()
+
+    def kind(t):
+        if t[0] == 'str':
+            return "pstr"
+        if t[0] == 'lst':
+            return "pstr" if t[1] and is_char(t[1][0]) else "lis"
+        if t[0] == 'sd':
+            return "strdot"
+        return None
+
+    def parts(t):
+        """(head, tail) of a list-like node"""
+        if t[0] == 'sd':
+            return t[1], t[2]
+        if t[0] == 'str':
+            rest = ('str', t[1][1:], t[2]) if len(t[1]) > 1 else (t[2] if t[2] is not None else nil())
+            return ('a', t[1][0]), rest
+        rest = ('lst', t[1][1:], t[2]) if len(t[1]) > 1 else (t[2] if t[2] is not None else nil())
+        return t[1][0], rest
+
+    def walk(x, y):
+        kx, ky = kind(x), kind(y)
+        if kx and ky:
+            if kx == "strdot":
+                out.add(ky)
+            if ky == "strdot":
+                out.add(kx)
+            (hx, tx), (hy, ty) = parts(x), parts(y)
+            walk(hx, hy)
+            walk(tx, ty)
+        elif x[0] == 's' and y[0] == 's' and x[1] == y[1] and len(x[2]) == len(y[2]):
+            for p, q in zip(x[2], y[2]):
+                walk(p, q)
+    walk(a, b)
+    return out
 
 
 def make_case(cid, t1, t2, shares, family, hide, head=False, hshape="list"):
@@ -915,9 +979,15 @@ def make_case(cid, t1, t2, shares, family, hide, head=False, hshape="list"):
                      "args": "L\t%s_ld\tuser\tc10h_%s(%s,_,_, %s).",
                      "list": "L\t%s_ld\tuser\tc10h_%s([%s,_,_], %s)."}[hshape] % (cid, cid, ",".join(VARS), plain_pl(e2)))
     impl.append("Q\t%s\t2\t%s" % (cid, q))
+    sd = contains_sd(t1) or contains_sd(t2)
+    if sd:
+        # `(H '.' T)` needs the infix operator; it is removed again after the case
+        impl.insert(1, "Q\t%s_op\t1\top(200, xfy, '.')." % cid)
+        impl.append("Q\t%s_op0\t1\top(0, xfy, '.')." % cid)
     model = ["unify\t%s\t%s\t%s\t%s" % (cid, canon(e1), canon(e2), canon(ex))]
     return {"id": cid, "family": family, "t1": canon(e1), "t2": canon(e2), "extra": canon(ex),
             "prolog": "%sT1 = %s, T2 = %s" % (pre, p1, p2), "hide": hide, "hshape": hshape if head else None,
+            "strdot": "+".join(sorted(strdot_meets(t1, t2))) if sd else None,
             "configs": [list(x) for x in configs], "impl": impl, "model": model}
 
 
@@ -1076,6 +1146,9 @@ def judge(c, impl, model):
                     head_string_meets_compound(orig[2][0], orig[2][1]):
                 # finding C10-1: get_partial_string accepts any compound as a list cell
                 sig = {"family": "unify", "pred": "head", "defect": "head-string-meets-compound"}
+            elif c.get("strdot") and pred != "head" and prob[0] in ("success", "not-identical", "binding"):
+                # findings C10-3 / C10-4: unify_structure with a '.'/2 structure cell on its left
+                sig = {"family": "unify", "pred": "run-time", "defect": "strdot-cell-vs-" + c["strdot"]}
             elif pred == "head" and flag in ("true", "error") and mo == "cyclic" and \
                     prob[0] in ("no-solution", "success", "not-identical", "binding") and \
                     head_write_mode_possible(orig[2][0], orig[2][1]):
@@ -1123,8 +1196,30 @@ def directed_cases():
         (f(A), g(A)), (f(A), f(A, A)), (f(A, A), f(B)), (('a', 'f'), f(A)), (('a', '[]'), ('lst', [A], None)),
         (('s', '.', [A, B]), ('lst', [('i', 1)], None)), (('lst', [('i', 1)], None), ('s', '.', [A, B])),
     ]
+    L += strdot_pairs()
     L += [p[1:] for p in write_mode_pairs()]
     return [(a, b, {}, "directed") for a, b in L]
+
+
+def strdot_pairs():
+    """the list cell H.T as a '.'/2 STRUCTURE cell (node 'sd') against list cells, partial strings,
+    other structure cells, in both argument orders and one level down (the PDL order flips)."""
+    V = lambda n: ('v', n)
+    A, B, C = V("V0"), V("V1"), V("V2")
+    i1, i2, a = ('i', 1), ('i', 2), ('a', 'a')
+    f = lambda x: ('s', 'f', [x])
+    return [
+        (('lst', [i1], None), ('sd', i1, nil())), (('sd', i1, nil()), ('lst', [i1], None)),
+        (('lst', [i1, i2], None), ('sd', A, B)), (('sd', A, B), ('lst', [i1, i2], None)),
+        (('str', "ab", None), ('sd', a, B)), (('sd', a, B), ('str', "ab", None)),
+        (('str', "ab", C), ('sd', A, B)), (('sd', A, B), ('str', "ab", C)),
+        (f(('lst', [i1], A)), f(('sd', B, C))), (f(('sd', B, C)), f(('lst', [i1], A))),
+        (f(('str', "ab", A)), f(('sd', B, C))), (f(('sd', B, C)), f(('str', "ab", A))),
+        (('sd', A, B), ('sd', i1, nil())), (('sd', A, B), ('s', '-', [A, B])), (('s', '-', [A, B]), ('sd', A, B)),
+        (('sd', A, A), ('lst', [B], B)), (('lst', [i1], A), ('sd', i2, B)), (('sd', i2, B), ('lst', [i1], A)),
+        (('sd', A, ('sd', B, nil())), ('lst', [i1, i2], None)), (('lst', [i1, i2], None), ('sd', A, ('sd', B, nil()))),
+        (('sd', A, B), A), (A, ('sd', i1, A)),
+    ]
 
 
 def write_mode_pairs():
@@ -1249,7 +1344,7 @@ def run(ctx):
             agree += 1
         for kind, sig, detail in probs:
             findings.append(core.Finding(kind, sig, detail, {k: c.get(k) for k in (
-                "id", "family", "t1", "t2", "extra", "prolog", "hide", "hshape", "configs", "impl", "model")}))
+                "id", "family", "t1", "t2", "extra", "prolog", "hide", "hshape", "strdot", "configs", "impl", "model")}))
     return {
         "evaluations": sum(len(c.get("configs", CONFIGS)) for c in cases),
         "distinct_nontrivial": len(distinct),
